@@ -144,12 +144,14 @@ func init() {
 				}
 				st.side["mu:"+k] = 1
 				st.lockset[k] = true
+				st.co().hold(k)
 			case "TryLock":
 				if w != 0 || r != 0 {
 					return tFalse, ctlRet
 				}
 				st.side["mu:"+k] = 1
 				st.lockset[k] = true
+				st.co().hold(k)
 				return tTrue, ctlRet
 			case "Unlock":
 				if w == 0 {
@@ -159,6 +161,7 @@ func init() {
 				}
 				delete(st.side, "mu:"+k)
 				delete(st.lockset, k)
+				st.lockReleased(k)
 				ex.handoff(st)
 			case "RLock":
 				if w != 0 {
@@ -166,6 +169,7 @@ func init() {
 				}
 				st.side["rmu:"+k] = r + 1
 				st.lockset[k] = true
+				st.co().hold(k)
 			case "RUnlock":
 				if r == 0 {
 					st.fail = &Failure{Kind: "panic", ID: "runlock-of-unlocked", Msg: "sync: RUnlock of unlocked RWMutex"}
@@ -178,6 +182,7 @@ func init() {
 				} else {
 					st.side["rmu:"+k] = r - 1
 				}
+				st.lockReleased(k)
 				ex.handoff(st)
 			}
 			return nil, ctlRet
@@ -335,6 +340,7 @@ func init() {
 			}
 			delete(st.side, "mu:"+mk)
 			delete(st.lockset, mk)
+			st.lockReleased(mk)
 			st.side[wk] = gen
 			return nil, ctlBlk
 		}
@@ -346,6 +352,7 @@ func init() {
 		}
 		st.side["mu:"+mk] = 1
 		st.lockset[mk] = true
+		st.co().hold(mk)
 		delete(st.side, wk)
 		return nil, ctlRet
 	})
